@@ -50,12 +50,14 @@ func readJSON(path string, v interface{}) error {
 var classRe = regexp.MustCompile(`(@ret\d+|@b\d+)`)
 var trailingNum = regexp.MustCompile(`#(index|slice|nil|div|assert|make|panic|overflow|nilmap|decreases)\d+$`)
 var callNum = regexp.MustCompile(`\)\d+\.`)
+var guardNum = regexp.MustCompile(`\)\d+$`)
 
 // oblClass strips positional ordinals so that harmless edits do not rename an obligation's class.
 func oblClass(name string) string {
 	s := classRe.ReplaceAllString(name, "")
 	s = trailingNum.ReplaceAllString(s, "#$1")
 	s = callNum.ReplaceAllString(s, ").")
+	s = guardNum.ReplaceAllString(s, ")")
 	return s
 }
 
